@@ -495,3 +495,128 @@ def sym_seconds(c, name, lo_us=None, hi_us=None):
 def const_time(d):
     """A concrete datetime wrapped as a proxy (so that it hashes like one)."""
     return SymTime(z3.IntVal(dt_to_us(d)), _EMPTY, label=str(d))
+
+
+# ------------------------------------------------------------------ module-level stand-ins
+
+
+class _TimedeltaMeta(type):
+    def __instancecheck__(cls, obj):
+        return isinstance(obj, (timedelta, SymDelta))
+
+    def __getattr__(cls, name):
+        return getattr(timedelta, name)
+
+
+class TimedeltaShim(metaclass=_TimedeltaMeta):
+    """``timedelta`` inside modules under test: builds a SymDelta when an argument is a proxy
+    (e.g. ``timedelta(seconds=latency)``), a real timedelta otherwise."""
+
+    def __new__(cls, days=0, seconds=0, microseconds=0, milliseconds=0, minutes=0, hours=0, weeks=0):
+        parts = [(days, 86400 * US), (seconds, US), (microseconds, 1), (milliseconds, 1000), (minutes, 60 * US),
+                 (hours, 3600 * US), (weeks, 7 * 86400 * US)]
+        if not any(isinstance(v, (SymReal,)) or type(v).__name__ == "SymInt" for v, _ in parts):
+            return timedelta(days=days, seconds=seconds, microseconds=microseconds, milliseconds=milliseconds,
+                             minutes=minutes, hours=hours, weeks=weeks)
+        e = z3.IntVal(0)
+        vs = _EMPTY
+        for v, unit in parts:
+            if isinstance(v, SymSeconds):
+                if unit != US:
+                    raise Unsupported("timedelta(<unit other than seconds>=SymSeconds)")
+                e = e + v.us
+                vs = vs | v.vs
+            elif type(v).__name__ == "SymInt":
+                e = e + v.e * unit
+                vs = vs | v.vs
+            elif isinstance(v, SymReal):
+                raise Unsupported("timedelta of a real-valued proxy")
+            elif v:
+                us = v * unit
+                if us != int(us):
+                    raise Unsupported("sub-microsecond timedelta")
+                e = e + int(us)
+        return SymDelta(e, vs)
+
+
+class MathShim:
+    """``math`` inside modules under test: the functions a refactor is likely to use, on proxies."""
+
+    def __getattr__(self, name):
+        import math as _m
+        return getattr(_m, name)
+
+    @staticmethod
+    def isnan(x):
+        import math as _m
+        return False if isinstance(x, SymReal) else _m.isnan(x)
+
+    @staticmethod
+    def isfinite(x):
+        import math as _m
+        return True if isinstance(x, SymReal) else _m.isfinite(x)
+
+    @staticmethod
+    def isinf(x):
+        import math as _m
+        return False if isinstance(x, SymReal) else _m.isinf(x)
+
+    @staticmethod
+    def log(x, *a):
+        import math as _m
+        if isinstance(x, SymReal) and not a:
+            return ctx().log(x)
+        return _m.log(x, *a)
+
+    @staticmethod
+    def sqrt(x):
+        import math as _m
+        return ctx().power(x, 0.5) if isinstance(x, SymReal) else _m.sqrt(x)
+
+    @staticmethod
+    def pow(x, y):
+        import math as _m
+        return ctx().power(x, y) if isinstance(x, SymReal) or isinstance(y, SymReal) else _m.pow(x, y)
+
+    @staticmethod
+    def fabs(x):
+        import math as _m
+        return abs(x) if isinstance(x, SymReal) else _m.fabs(x)
+
+    @staticmethod
+    def copysign(x, y):
+        import math as _m
+        if isinstance(x, SymReal) or isinstance(y, SymReal):
+            ax = abs(x)
+            return ax if bool(y >= 0) else -ax
+        return _m.copysign(x, y)
+
+    @staticmethod
+    def floor(x):
+        import math as _m
+        return x.__floor__() if isinstance(x, SymReal) else _m.floor(x)
+
+    @staticmethod
+    def ceil(x):
+        import math as _m
+        return x.__ceil__() if isinstance(x, SymReal) else _m.ceil(x)
+
+    @staticmethod
+    def trunc(x):
+        import math as _m
+        return x.__trunc__() if isinstance(x, SymReal) else _m.trunc(x)
+
+
+def install_module_shims():
+    """Shadow ``timedelta`` and ``math`` (only where a module under test already binds these
+    names) for the duration of a symbolic path; undone by stubs.uninstall_all()."""
+    import sys as _sys
+    import math as _m
+    from . import stubs
+    for name, module in list(_sys.modules.items()):
+        if module is None or not (name == "tradingenv" or name.startswith("tradingenv.")):
+            continue
+        if module.__dict__.get("timedelta") is timedelta:
+            stubs.install(module, "timedelta", TimedeltaShim)
+        if module.__dict__.get("math") is _m:
+            stubs.install(module, "math", MathShim())
